@@ -197,5 +197,13 @@ def explore(run, tier):
                 for j in range(8)]
         for b in (0, 1):
             cases.append({'b': b, 'codec': codec, 'msgs': msgs})
+    # … and files that hold a message WITHOUT any data element (MTI and an empty bitmap: a 20-byte record) first, in the
+    # middle and last — by construction, whatever the seed draws elsewhere
+    for codec in ('latin_1', 'cp500'):
+        full = {'MTI': '1240', 'DE2': '5' * 16, 'DE3': '000000'}
+        for shape in ([{'MTI': '1644'}, full, full], [full, {'MTI': '1644'}, full], [full, full, {'MTI': '1644'}],
+                      [{'MTI': '1644'}], [{'MTI': '1644'}, {'MTI': '1644'}]):
+            for b in (0, 1):
+                cases.append({'b': b, 'codec': codec, 'msgs': [iu.dict_wire(m) for m in shape]})
     run.exhaustive.append('every cut offset 0..len(file) of each generated file')
     run.correspond(__name__, cases, use_model=run.use_model, chunk=2)
